@@ -147,7 +147,7 @@ PROPS = {
     },
     "C14": {
         "module": "FBV.Props.C14b",
-        "theorems": ["FBV.C14.cof_drive_eq_blocking", "FBV.C14.cof_pending_only_if_reader", "FBV.C14.cof_conserves", "FBV.C14.cof_calls_once", "FBV.C14.cof_full",
+        "theorems": ["FBV.C14.cof_drive_eq_blocking", "FBV.C14.cof_refines", "FBV.C14.cof_pending_only_if_reader", "FBV.C14.cof_conserves", "FBV.C14.cof_calls_once", "FBV.C14.cof_full",
                      "FBV.pollLoop_outcome", "FBV.C14.pending_only_if_reader_pending", "FBV.C14.drive_outcome", "FBV.C15.async_eq_blocking",
                      "FBV.C15.drive_spec", "FBV.C15.restart_eq_resume"],
         "jobs": tokio_jobs("arf"),
@@ -178,7 +178,7 @@ PROPS = {
     },
     "C16": {
         "module": "FBV.Props.C16b",
-        "theorems": ["FBV.C16.chain_await_eq_blocking", "FBV.C16.take_await_eq_blocking",
+        "theorems": ["FBV.C16.chain_await_eq_blocking", "FBV.C16.take_await_eq_blocking", "FBV.C16.liftA_ok", "FBV.C16.asrwReader_ok",
                      "FBV.C16.chain_bisim", "FBV.C16.chain_pending_only_from_inner", "FBV.C16.chain_keeps_filled", "FBV.C16.take_exposes_at_most_remaining",
                      "FBV.C16.take_at_zero", "FBV.C16.take_pending_loses_nothing", "FBV.C16.take_eq_tokio", "FBV.C16.Legacy.legacy_skips_first"],
         "jobs": tokio_jobs("achain", "atake"),
